@@ -212,6 +212,8 @@ func c13Shapes() []func() s2.Shape {
 		func() s2.Shape {
 			return s2.LaxPolygonFromPolygon(s2.PolygonFromLoops([]*s2.Loop{s2.RegularLoop(s2.PointFromLatLng(s2.LatLngFromDegrees(12, 14)), s1.Degree*5, 12)}))
 		},
+		// a shape without edges that nevertheless occupies every index cell: the full polygon
+		func() s2.Shape { return s2.FullPolygon() },
 	}
 }
 
@@ -937,7 +939,7 @@ func c13OtherQueriesMachine() *machine {
 	mkIndex := func() (*s2.ShapeIndex, []s2.Shape) {
 		ix := s2.NewShapeIndex()
 		var shapes []s2.Shape
-		for _, f := range c13Shapes() {
+		for _, f := range c13Shapes()[:4] {
 			s := f()
 			shapes = append(shapes, s)
 			ix.Add(s)
